@@ -3,7 +3,10 @@ package sim
 import (
 	"errors"
 	"fmt"
+	"io"
+	"os"
 	"strconv"
+	"syscall"
 )
 
 // Yielder is what a seam calls whenever the code under test crosses into
@@ -47,6 +50,22 @@ type SimWriter struct {
 	ZeroLen  bool // the fault landed on a zero-length Write
 	Y        Yielder
 	asString bool
+	Err      error // what an injected fault returns (default ErrInjected)
+}
+
+// faultErrors are the identities an injected write error can have: a private
+// sentinel, the errors a closed pipe gives (a caller may be tempted to treat
+// those as "the reader went away, fine"), io.ErrShortWrite, and a wrapped one.
+var faultErrors = []error{
+	ErrInjected, io.ErrClosedPipe, syscall.EPIPE, io.ErrShortWrite,
+	&os.PathError{Op: "write", Path: "|1", Err: syscall.EPIPE},
+}
+
+func (w *SimWriter) fault() error {
+	if w.Err != nil {
+		return w.Err
+	}
+	return ErrInjected
 }
 
 func (w *SimWriter) Write(p []byte) (int, error) {
@@ -63,7 +82,7 @@ func (w *SimWriter) Write(p []byte) (int, error) {
 			if k == w.FaultAt && len(p) == 0 {
 				w.ZeroLen = true
 			}
-			return 0, ErrInjected
+			return 0, w.fault()
 		case (w.Mode == FaultPartial || w.Mode == FaultPartialOnce) && k == w.FaultAt:
 			n := 0
 			if len(p) > 0 {
@@ -79,7 +98,7 @@ func (w *SimWriter) Write(p []byte) (int, error) {
 			}
 			w.Accepted = append(w.Accepted, p[:n]...)
 			w.Fired++
-			return n, ErrInjected
+			return n, w.fault()
 		}
 	}
 	w.Accepted = append(w.Accepted, p...)
